@@ -202,22 +202,53 @@ pub fn call(dir: &std::path::Path, cfg: Cfg, http: bool, skew_us: i64, seed: u64
         chunk: chunk.clone(),
     };
     let exe = std::env::current_exe().map_err(|e| e.to_string())?;
-    let mut child = std::process::Command::new(exe)
-        .arg("xreq")
-        .stdin(std::process::Stdio::piped())
-        .stdout(std::process::Stdio::piped())
-        .stderr(std::process::Stdio::null())
-        .spawn()
-        .map_err(|e| format!("spawn: {e}"))?;
-    {
-        let mut si = child.stdin.take().ok_or("no stdin")?;
-        si.write_all(serde_json::to_string(&q).map_err(|e| e.to_string())?.as_bytes()).map_err(|e| e.to_string())?;
+    let body = serde_json::to_string(&q).map_err(|e| e.to_string())?;
+    // starting a process can fail transiently on a loaded machine: that says nothing about the
+    // code under test, so try again (real time is not observable by the run)
+    let mut last = String::new();
+    for attempt in 0..6 {
+        if attempt > 0 {
+            std::thread::sleep(std::time::Duration::from_millis(150 * attempt));
+        }
+        let mut child = match std::process::Command::new(&exe)
+            .arg("xreq")
+            .stdin(std::process::Stdio::piped())
+            .stdout(std::process::Stdio::piped())
+            .stderr(std::process::Stdio::null())
+            .spawn()
+        {
+            Ok(c) => c,
+            Err(e) => {
+                last = format!("spawn: {e}");
+                continue;
+            }
+        };
+        if let Some(mut si) = child.stdin.take() {
+            if let Err(e) = si.write_all(body.as_bytes()) {
+                last = format!("writing the request: {e}");
+                let _ = child.kill();
+                let _ = child.wait();
+                continue;
+            }
+        }
+        let o = match child.wait_with_output() {
+            Ok(o) => o,
+            Err(e) => return Err(format!("wait: {e}")),
+        };
+        if !o.status.success() {
+            use std::os::unix::process::ExitStatusExt;
+            match o.status.signal() {
+                // the server process died while serving: abort (double panic), stack overflow, ...
+                Some(sig) if sig != libc::SIGKILL => return Ok((Resp::Panic(format!("server process killed by signal {sig} while serving")), 0)),
+                // exit codes and SIGKILL (out-of-memory killer) are the harness's own trouble
+                // (no retry: the request may already have taken effect)
+                _ => return Err(format!("child ended with {}", o.status)),
+            }
+        }
+        match serde_json::from_slice::<XResp>(&o.stdout) {
+            Ok(x) => return Ok((from_x(&x), x.elapsed_us.max(0))),
+            Err(e) => return Err(format!("bad child output: {e}")),
+        }
     }
-    let o = child.wait_with_output().map_err(|e| e.to_string())?;
-    if !o.status.success() {
-        // the child died: the server process crashed while serving (abort, stack overflow, ...)
-        return Ok((Resp::Panic(format!("server process ended with {}", o.status)), 0));
-    }
-    let x: XResp = serde_json::from_slice(&o.stdout).map_err(|e| format!("bad child output: {e}"))?;
-    Ok((from_x(&x), x.elapsed_us.max(0)))
+    Err(last)
 }
